@@ -9,7 +9,7 @@ import itertools
 from fractions import Fraction
 
 from ..model import AnalysisError
-from ..symex import Symex, Obj, ClassRef
+from ..symex import Symex, Obj, ClassRef, Raised as SxRaised
 from ..terms import (T, sym, t_mul, t_add, t_cmp, is_num, strip, expand_products, subterms, args_of, show, multiset,
                      multiset_diff)
 
@@ -28,12 +28,19 @@ EXPLANATION = (
     "symbolic: the result, expanded into products, is every complete pairing exactly once with sign (-1)^crossings, "
     "the first argument of a contraction being the left operator; bookkeeping by position for repeated (equal) "
     "operators; vanishing contractions remove exactly the pairings that contain them (n=4, n=6). R01c: "
-    "_has_fully_contracted_contribution evaluated over all 729 counter vectors in {0,1,2}^6, creators first and "
-    "reversed (thorough: also interleaved): it may answer False only if the creator/annihilator compatibility graph "
-    "has no perfect matching. R01d: Rules.apply evaluated on three rule sets with several tensors on an expression "
-    "enumerating all (name, block) combinations of one and two objects (156 terms each): the result is Expr(0) "
-    "carrying the assumptions of the input plus exactly the terms without an object whose name is restricted AND whose "
-    "block is excluded for that name, each once; empty rules (None, {}) return the input; non-Expr input refused; "
+    "_has_fully_contracted_contribution (with every helper it calls; type(x) of an operator is its class) evaluated "
+    "on every ordered string of up to four operators over kind x space, on six-operator strings in three (thorough: "
+    "six) creator/annihilator patterns over all spaces and on the 729 counter vectors in {0,1,2}^6 arranged "
+    "alternating and interleaved (thorough: also creators first and reversed; up to twelve operators): it may answer "
+    "False only if the ordered string has no complete pairing of non-vanishing contractions (particle contraction "
+    "F..Fd without occupied index, hole contraction Fd..F without virtual index), i.e. only if the expectation value "
+    "vanishes identically - a screening that is sharper than counting is accepted. R01d: Rules.apply evaluated on "
+    "four rule sets on an expression whose terms are expr_container.Term/Obj records around abstract sympy objects "
+    "(name, space, type_as_str, ... are evaluated from the library's own properties): every tensor class "
+    "(AntiSymmetricTensor, SymmetricTensor, Amplitude, NonSymmetricTensor) x name x block alone, squared tensors, "
+    "Kronecker deltas, numbers, symbols sharing the name of a restricted tensor, and pairs of objects: the result is "
+    "Expr(0) carrying the assumptions of the input plus exactly the terms without a tensor whose name is restricted AND "
+    "whose block is excluded for that name, each once; empty rules (None, {}) return the input; non-Expr input refused; "
     "Rules.is_empty truth table; wicks evaluated on abstract sympy expressions (NO / bare operator, Add, Mul with "
     "0/1/2/4 operators and 0/2 commuting factors, symbol, tensor) x (rules None/given) x (delta flag): the result is "
     "[rules.apply(Expr(.)).sympy] [evaluate_deltas(., target_idx=None)] (commuting part x "
@@ -96,7 +103,7 @@ def _operator(kind, idx, pos=None, label=None):
     classes = (kind,) + alias[kind] + ("FermionicOperator", "SqOperator", "Expr", "Basic") if kind in KINDS else (kind,)
     return _Op(None, f"{kind}[{idx.attrs['name']}]" + ("" if pos is None else f"@{pos}"), _classes=classes, args=[idx],
                state=idx, label=label if label is not None else (kind, idx.attrs["name"]), pos=pos, is_commutative=False,
-               is_number=False)
+               is_number=False, func=sym(kind))
 
 
 def _tensor(name):
@@ -131,9 +138,31 @@ def _hooks(**extra):
     def mul(sx, a, kw):
         return t_mul(*[_term(x) for x in a])
 
-    h = {"S": _S(), "Index": index, "KroneckerDelta": delta, "Add": add, "Mul": mul}
+    def type_(sx, a, kw):
+        # the exact class of an abstract sympy object is the first entry of its class list
+        if len(a) == 1 and isinstance(a[0], Obj) and a[0].attrs.get("_classes"):
+            return sym(a[0].attrs["_classes"][0])
+        return NotImplemented
+
+    h = {"S": _S(), "Index": index, "KroneckerDelta": delta, "Add": add, "Mul": mul, "type": type_}
     h.update(extra)
     return h
+
+
+CLASS_ALIAS = {"AnnihilateFermion": "F", "CreateFermion": "Fd"}
+CLASS_NAMES = {"F", "Fd", "NO", "FermionicOperator", "Mul", "Add", "Pow", "Symbol", "KroneckerDelta", "AntiSymmetricTensor",
+               "SymmetricTensor", "NonSymmetricTensor", "Amplitude", "SymbolicTensor", "Rational", "Integer", "Number"} | \
+    set(CLASS_ALIAS)
+
+
+def _class_identity(atom):
+    """``type(x) is C`` / ``type(x) == type(y)`` over class names (sympy's F/Fd are aliases of Annihilate/CreateFermion)."""
+    if atom.op == "cmp" and atom.args[0] in ("is", "==", "is not", "!="):
+        a, b = atom.args[1], atom.args[2]
+        if all(isinstance(x, T) and x.op == "sym" and x.args[0] in CLASS_NAMES for x in (a, b)):
+            same = CLASS_ALIAS.get(a.args[0], a.args[0]) == CLASS_ALIAS.get(b.args[0], b.args[0])
+            return same if atom.args[0] in ("is", "==") else not same
+    return None
 
 
 def _inline_except(*vocab):
@@ -431,6 +460,9 @@ class _Generic:
         raise _Uneval(show(t))
 
     def __call__(self, sx, atom):
+        r = _class_identity(atom)
+        if r is not None:
+            return r
         try:
             if atom.op == "cmp" and atom.args[0] in ("==", "!=", "<", "<=", "is", "is not"):
                 a, b = self.number(atom.args[1]), self.number(atom.args[2])
@@ -493,16 +525,32 @@ def r01b(ctx):
 # R01c
 
 
-def _has_matching(creators, annihilators):
-    if len(creators) != len(annihilators):
-        return False
-
-    def compat(c, a):
-        return c == a or c == "general" or a == "general"
-    for perm in set(itertools.permutations(annihilators)):
-        if all(compat(c, a) for c, a in zip(creators, perm)):
-            return True
+def _contractible(a, b):
+    """Non-vanishing contraction of the operator a = (kind, space) with an operator b to its right (the table that
+    R01a establishes numerically): particle F..Fd without an occupied index, hole Fd..F without a virtual one."""
+    (ka, sa), (kb, sb) = a, b
+    if (ka, kb) == ("F", "Fd"):
+        return "occ" not in (sa, sb)
+    if (ka, kb) == ("Fd", "F"):
+        return "virt" not in (sa, sb)
     return False
+
+
+def _has_pairing(seq, _memo=None):
+    """Whether the ordered operator string has a complete pairing all of whose contractions are non-zero (with one
+    index per operator the pairings give linearly independent delta products, so this is exactly: the expectation
+    value does not vanish identically)."""
+    memo = {} if _memo is None else _memo
+    seq = tuple(seq)
+    if not seq:
+        return True
+    if len(seq) % 2:
+        return False
+    if seq in memo:
+        return memo[seq]
+    r = any(_contractible(seq[0], seq[k]) and _has_pairing(seq[1:k] + seq[k + 1:], memo) for k in range(1, len(seq)))
+    memo[seq] = r
+    return r
 
 
 def _class_attr(ctx, mod, cls, attr):
@@ -520,34 +568,58 @@ def r01c(ctx):
     ctx.check(rule, ctx.model.cls("indices:Indices"), isinstance(base, dict) and set(base) == set(SPACES),
               "Indices.base has the three spaces", f"Indices.base is {show(base)[:120]}", key="base keys")
     sx = Symex(ctx.model, inline=_inline_except(), hooks=_hooks(), what="_has_fully_contracted_contribution")
-    orders = ["creators first", "reversed"] if ctx.tier == "quick" else ["creators first", "reversed", "interleaved"]
-    bad = 0
-    n = 0
+    sx.oracle = _Generic(lambda t: False)
+    dom = list(itertools.product(KINDS, SPACES))
+    strings = []
+    # every string of up to four operators, six operators in fixed creator/annihilator patterns over all spaces
+    for size in range(5):
+        strings += [(f"n={size}", list(st)) for st in itertools.product(dom, repeat=size)]
+    patterns = ["F Fd F Fd F Fd", "Fd F Fd F Fd F", "F F Fd Fd F Fd"]
+    if ctx.tier != "quick":
+        patterns += ["F F F Fd Fd Fd", "Fd Fd F F F Fd", "Fd Fd Fd F F F"]
+    for pat in patterns:
+        strings += [(f"pattern {pat}", list(zip(pat.split(), sp))) for sp in itertools.product(SPACES, repeat=6)]
+    # long strings (up to twelve operators): all counter vectors in {0,1,2}^6 in several arrangements
+    orders = ["alternating", "interleaved"] if ctx.tier == "quick" else ["creators first", "reversed", "interleaved", "alternating"]
     for counts in itertools.product(range(3), repeat=6):
-        creators = sum(([s] * c for s, c in zip(SPACES, counts[:3])), [])
-        annihilators = sum(([s] * c for s, c in zip(SPACES, counts[3:])), [])
-        seq = [("Fd", s) for s in creators] + [("F", s) for s in annihilators]
+        creators = [("Fd", s) for s, c in zip(SPACES, counts[:3]) for _ in range(c)]
+        annihilators = [("F", s) for s, c in zip(SPACES, counts[3:]) for _ in range(c)]
+        seq = creators + annihilators
         for order in orders:
             if order == "reversed":
                 seq2 = seq[::-1]
             elif order == "interleaved":
                 seq2 = seq[::2] + seq[1::2]
+            elif order == "alternating":
+                seq2 = [x for pair in itertools.zip_longest(annihilators, creators) for x in pair if x is not None]
             else:
                 seq2 = seq
-            outs = sx.run(fn, lambda: dict(op_string=[_operator(k, _index(f"x{i}", s), pos=i)
-                                                      for i, (k, s) in enumerate(seq2)]))
-            n += 1
-            if len(outs) != 1 or outs[0].kind != "return" or isinstance(outs[0].value, T):
-                raise AnalysisError(f"R01c: prefilter on {counts} ({order}) gives {outs[:2]}")
-            val = bool(outs[0].value)
-            if not val and _has_matching(creators, annihilators):
-                bad += 1
-                if bad <= 3:
-                    ctx.bad(rule, fn, f"prefilter answers False although creators {creators} and annihilators {annihilators} "
-                            f"admit a complete contraction ({order})", key=f"counts {counts}")
-            else:
-                ctx.ok(rule, fn, f"counts {counts} {order}: answer {val} sound")
-    ctx.floor(rule, "operator strings given to the prefilter", n, 2 * 729)
+            strings.append((f"counts {counts} {order}", seq2))
+    bad = 0
+    n = 0
+    live = 0
+    memo = {}
+    seen = set()
+    for label, seq2 in strings:
+        if tuple(seq2) in seen:
+            continue
+        seen.add(tuple(seq2))
+        outs = sx.run(fn, lambda: dict(op_string=[_operator(k, _index(f"x{i}", s), pos=i) for i, (k, s) in enumerate(seq2)]))
+        n += 1
+        if len(outs) != 1 or outs[0].kind != "return" or isinstance(outs[0].value, T):
+            raise AnalysisError(f"R01c: prefilter on {label} gives {outs[:2]}")
+        val = bool(outs[0].value)
+        possible = _has_pairing(seq2, memo)
+        live += possible
+        if not val and possible:
+            bad += 1
+            if bad <= 3:
+                ctx.bad(rule, fn, f"prefilter answers False for the string <{' '.join(k + '_' + s for k, s in seq2)}> although "
+                        "it has a complete pairing of non-vanishing contractions", key=f"string {label}")
+        else:
+            ctx.ok(rule, fn, f"{label}: answer {val} sound", key=label.split(" (")[0] if label.startswith(("n=", "pattern")) else "counts")
+    ctx.floor(rule, "strings with a non-vanishing complete pairing among those given to the prefilter", live, 700)
+    ctx.floor(rule, "operator strings given to the prefilter", n, 4000)
 
 
 # ---------------------------------------------------------------------------
@@ -563,35 +635,98 @@ def _expr_obj(terms, assumptions):
                _classes=("Expr", "Container"))
 
 
-def _tensor_obj(tname, space, tag):
-    o = Obj(None, tag, space=space)
-    o.attrs["name"] = tname
+TENSOR_CLASSES = {
+    "antisymtensor": ("AntiSymmetricTensor", "SymbolicTensor", "Expr", "Basic"),
+    "symtensor": ("SymmetricTensor", "AntiSymmetricTensor", "SymbolicTensor", "Expr", "Basic"),
+    "amplitude": ("Amplitude", "AntiSymmetricTensor", "SymbolicTensor", "Expr", "Basic"),
+    "nonsymtensor": ("NonSymmetricTensor", "SymbolicTensor", "Expr", "Basic"),
+}
+OTHER_CLASSES = {
+    "delta": ("KroneckerDelta", "Function", "Expr", "Basic"),
+    "symbol": ("Symbol", "AtomicExpr", "Expr", "Basic"),
+    "prefactor": ("Rational", "Number", "AtomicExpr", "Expr", "Basic"),
+}
+SPACE_OF = {"o": "occ", "v": "virt", "g": "general"}
+
+
+def _sympy_obj(kind, name, block, tag):
+    """Abstract sympy object behind one object of a term: a tensor of one of the four tensor classes (optionally
+    squared), a Kronecker delta, a plain symbol or a number."""
+    idx = tuple(_index(f"{tag}.i{k}", SPACE_OF[c]) for k, c in enumerate(block))
+    if kind.endswith("^2"):
+        base = _sympy_obj(kind[:-2], name, block, tag + ".base")
+        return Obj(None, tag + ".sympy", _classes=("Pow", "Expr", "Basic"), args=(base, 2), is_number=False,
+                   is_commutative=True)
+    if kind in TENSOR_CLASSES:
+        o = Obj(None, tag + ".sympy", _classes=TENSOR_CLASSES[kind], idx=idx, is_number=False, is_commutative=True,
+                args=())
+    elif kind == "delta":
+        o = Obj(None, tag + ".sympy", _classes=OTHER_CLASSES[kind], idx=idx, args=idx, is_number=False, is_commutative=True)
+    elif kind == "symbol":
+        o = Obj(None, tag + ".sympy", _classes=OTHER_CLASSES[kind], args=(), is_number=False, is_commutative=True)
+    else:
+        o = Obj(None, tag + ".sympy", _classes=OTHER_CLASSES["prefactor"], args=(), is_number=True, is_commutative=True)
+    if name is not None:
+        o.attrs["name"] = name
+    o.attrs["_closed"] = True
     return o
+
+
+def _closed_objects(sx, obj, attr, node):
+    """Abstract sympy objects carry all the attributes they have: anything else is an AttributeError."""
+    if isinstance(obj, Obj) and obj.attrs.get("_closed"):
+        raise SxRaised("AttributeError", None, node)
+    return NotImplemented
+
+
+def _tensor_obj(spec, tag):
+    """One object of a term as the container class expr_container.Obj around an abstract sympy object; name, space,
+    type_as_str, ... are evaluated from the library's own properties."""
+    kind, name, block = spec
+    return Obj("expr_container:Obj", tag, sympy=_sympy_obj(kind, name, block, tag))
+
+
+def _is_tensor(spec):
+    return spec[0].split("^")[0] in TENSOR_CLASSES
 
 
 def r01d_apply(ctx):
     rule = "R01d"
     fn = ctx.model.fn("rules:Rules.apply")
-    sx = Symex(ctx.model, inline=_inline_except(), hooks={}, what="Rules.apply", max_steps=2000000)
+    sx = Symex(ctx.model, inline=_inline_except(), hooks=_hooks(), what="Rules.apply", max_steps=20000000,
+               attr_hook=_closed_objects)
     sx.on_start = _assume_not_none("expr", "self")
+    sx.oracle = _Generic(lambda t: False)
     blocks = ("oo", "ov", "vo", "vv")
-    rule_sets = [{"f": ["ov", "vo"], "d": ["oo"]}, {"d": ["vv", "ov"], "x": ["ov"], "f": []}, {"f": ["oo"]}]
+    names = ("f", "d", "x")
+    kinds = tuple(TENSOR_CLASSES)
+    rule_sets = [{"f": ["ov", "vo"], "d": ["oo"]}, {"d": ["vv", "ov"], "x": ["ov"], "f": []}, {"f": ["oo"]},
+                 {"V": ["oovv", "ovov"], "x": ["vv"]}]
+    # every tensor class x name x block on its own
+    singles = [(k, a, b) for k in kinds for a in names for b in blocks]
+    singles += [(k, "V", b) for k in kinds for b in ("oovv", "ovov", "vvoo", "ooov")]
+    # objects that are not tensors (no name: never excluded), a symbol that merely shares the name of a restricted
+    # tensor, a squared tensor (name and block of its base)
+    others = [("prefactor", None, ""), ("delta", None, "ov"), ("delta", None, "oo"), ("symbol", "f", ""), ("symbol", "d", ""),
+              ("nonsymtensor^2", "f", "ov"), ("antisymtensor^2", "d", "oo"), ("symtensor^2", "x", "vv")]
+    # pairs: the 12 (name, block) combinations with the tensor class cycling, in both orders, and with a non-tensor
+    cyc = [(kinds[(i + j) % 4], a, b) for i, a in enumerate(names) for j, b in enumerate(blocks)]
+    combos = [(x,) for x in singles + others] + [(x, y) for x in cyc for y in cyc] + \
+        [(o, x) for o in others[:3] for x in cyc] + [(x, o) for o in others[3:5] for x in cyc]
     n = 0
     for fb in rule_sets:
-        names = ("f", "d", "x")
-        combos = [((a, b),) for a in names for b in blocks] + \
-                 [((a, b), (c, d)) for a in names for b in blocks for c in names for d in blocks]
         assumptions = {"real": True, "sym_tensors": ("d",)}
 
         def mk():
             terms = []
             for k, objs in enumerate(combos):
-                terms.append(Obj(None, f"t{k}", objects=[_tensor_obj(nm, sp, f"t{k}.o{j}") for j, (nm, sp) in enumerate(objs)]))
+                terms.append(Obj("expr_container:Term", f"t{k}",
+                                 objects=tuple(_tensor_obj(spec, f"t{k}.o{j}") for j, spec in enumerate(objs))))
             return dict(self=_rules_self({k: list(v) for k, v in fb.items()}), expr=_expr_obj(terms, assumptions))
         outs = sx.run(fn, mk)
         what = f"rules {fb}"
         if len(outs) != 1 or outs[0].kind != "return":
-            ctx.bad(rule, fn, f"{what}: evaluation gives {outs[:2]}", key=f"apply shape {sorted(fb)}")
+            ctx.bad(rule, fn, f"{what}: evaluation gives {len(outs)} outcomes: {outs[:2]}", key=f"apply shape {sorted(fb)}")
             continue
         parts = expand_products(_term(outs[0].value))
         kept, base = [], []
@@ -600,18 +735,19 @@ def r01d_apply(ctx):
                 kept.append(int(str(fs[0].args[0])[1:]))
             else:
                 base.append((c, fs))
-        want = [k for k, objs in enumerate(combos) if not any(nm in fb and sp in fb[nm] for nm, sp in objs)]
+        want = [k for k, objs in enumerate(combos)
+                if not any(_is_tensor(sp) and sp[1] in fb and sp[2] in fb[sp[1]] for sp in objs)]
         wrongly_dropped = sorted(set(want) - set(kept))
         wrongly_kept = sorted(set(kept) - set(want))
         dup = sorted({k for k in kept if kept.count(k) > 1})
         n += len(combos)
         ctx.check(rule, fn, not wrongly_dropped, f"{what}: no term without an excluded block is removed",
-                  f"{what}: the term with the tensors {combos[wrongly_dropped[0]] if wrongly_dropped else ''} is removed although "
-                  "none of its tensors sits in a block excluded for that tensor (a term may only be dropped if some object has "
+                  f"{what}: the term with the objects {combos[wrongly_dropped[0]] if wrongly_dropped else ''} is removed although "
+                  "none of its tensors sits in a block excluded for that tensor (a term may only be dropped if some tensor has "
                   "its name in the forbidden dict AND its block in the forbidden list of that name)", key=f"drop condition {sorted(fb)}")
         ctx.check(rule, fn, not wrongly_kept, f"{what}: every term with an excluded block is removed",
-                  f"{what}: the term with the tensors {combos[wrongly_kept[0]] if wrongly_kept else ''} is kept although it contains "
-                  "an excluded tensor block", key=f"keep condition {sorted(fb)}")
+                  f"{what}: the term with the objects {combos[wrongly_kept[0]] if wrongly_kept else ''} (class, name, block) is kept "
+                  "although it contains an excluded tensor block", key=f"keep condition {sorted(fb)}")
         ctx.check(rule, fn, not dup, f"{what}: kept terms added once",
                   f"{what}: term(s) {dup[:3]} are added more than once", key=f"once {sorted(fb)}")
         # the accumulator: zero with the assumptions of the input
@@ -631,7 +767,8 @@ def r01d_apply(ctx):
         holder = {}
 
         def mk():
-            holder["expr"] = _expr_obj([Obj(None, "t0", objects=[_tensor_obj("f", "ov", "t0.o0")])], {})
+            holder["expr"] = _expr_obj([Obj("expr_container:Term", "t0",
+                                            objects=(_tensor_obj(("antisymtensor", "f", "ov"), "t0.o0"),))], {})
             return dict(self=_rules_self(fb), expr=holder["expr"])
         outs = sx.run(fn, mk)
         ctx.check(rule, fn, len(outs) == 1 and outs[0].kind == "return" and outs[0].value is holder["expr"],
